@@ -1956,3 +1956,39 @@ func init() {
 		return p
 	}
 }
+
+func init() {
+	// "staleterm": what a goroutine of an EARLIER term does to the current one. One instance leads;
+	// a goroutine of its term is held up (300 ms - 1 s) right after it got the answer of a refresh
+	// or of a validation read; meanwhile the record is removed, the application's
+	// ValidateTokenOrDemote ends the term and the instance wins the vacancy again; then the held-up
+	// goroutine goes on. The new term's revision, token and status must be its own.
+	families["staleterm"] = func(r *Rng) *Plan {
+		p := &Plan{Judge: []string{"C18", "C05", "C08", "C19"}}
+		p.H = Pick(r, []time.Duration{200 * ms, 500 * ms, 1 * sec, 2 * sec})
+		p.TTL = Pick(r, []time.Duration{3 * p.H, 5 * p.H, 10 * p.H})
+		p.Insts = mkInsts(r, 1, 1)
+		c := &p.Insts[0]
+		c.V = Pick(r, []time.Duration{0, p.H, 2 * p.H})
+		p.Store = healthyStore(r, Pick(r, []time.Duration{2 * ms, 20 * ms}))
+		p.Store.WatchDelay = [2]Dur{0, 2 * ms}
+		p.Actions = append(p.Actions, Action{At: 0, Kind: AStart, Inst: 0})
+		kindOp, site := "update", "heartbeat.result"
+		if c.V > 0 && r.Bool(0.4) {
+			kindOp, site = "get", "validation.result"
+		}
+		n := 0
+		for k := 0; k < 1+r.Intn(3); k++ {
+			n += 2 + r.Intn(4)
+			// at the answer of the n-th refresh (validation read): the record goes, the application notices
+			d0 := r.Dur(0, 20*ms)
+			p.Actions = append(p.Actions, Action{Kind: Pick(r, []string{AOutDelete, AExpire}), Key: "g1", Inst: 0, OnInst: 1, OpKind: kindOp, OpN: n, Phase: "return", Delay: d0})
+			p.Actions = append(p.Actions, Action{Kind: AValidateOD, Inst: 0, OpKind: kindOp, OpN: n, Phase: "return", Delay: d0 + r.Dur(0, 20*ms)})
+		}
+		p.Until = time.Duration(n+6)*p.H + 3*sec
+		p.Tail = 0
+		statusCalls(r, p)
+		p.Sched = SchedCfg{YieldProb: 0.5, StallMax: Pick(r, []time.Duration{300 * ms, 600 * ms, 1 * sec}), StallSites: []string{site}}
+		return p
+	}
+}
